@@ -52,12 +52,21 @@ Inductive decl :=
 | DParRef (n : name)                         (* %n;  between declarations           *)
 | DAttDef (el att : name) (v : list atok).   (* <!ATTLIST el att CDATA "v">         *)
 
+(* the standalone pseudo-attribute of the XML declaration: absent (also: no
+   XML declaration at all), "yes" or "no" *)
+Inductive sdecl := SAbsent | SYes | SNo.
+
 Record doc := mkDoc {
-  d_standalone : bool;            (* <?xml ... standalone="yes"?> *)
+  d_sdecl : sdecl;                (* <?xml version=... encoding=... standalone=...?> *)
   d_ext : option sysid;           (* <!DOCTYPE r SYSTEM "..." / PUBLIC ".." "..." *)
   d_subset : list decl;           (* [ internal subset ] *)
   d_body : list tok
 }.
+
+(* expat: only standalone="yes" sets dtd->standalone (and switches parameter
+   entity parsing to NEVER); "no" is the default and the same as absent *)
+Definition d_standalone (x : doc) : bool :=
+  match d_sdecl x with SYes => true | _ => false end.
 
 (* what a system identifier may lead to *)
 Inductive resource :=
@@ -574,7 +583,9 @@ Definition parser_parse (fuel : nat) (lib_default : bool) (resolve : sysid -> op
   (x : doc) : logged rnode :=
   read fuel (saxparser lib_default) resolve x.
 
-Definition entry_config (e : entry) (lib_default : bool) : config :=
+(* the configuration of the parser an entry point uses for document [x]: the
+   document (its XML declaration, DOCTYPE, size, ...) has no say in it *)
+Definition entry_config (e : entry) (lib_default : bool) (x : doc) : config :=
   match e with
   | EParseString | EParseFile | EClientReply | EClientMsg | EReaderFetch | EDocCacheGet =>
     saxparser lib_default
@@ -593,7 +604,7 @@ Definition entry_wrap (e : entry) (r : logged rnode) : list sysid * entry_result
 
 Definition entry_parse (e : entry) (fuel : nat) (lib_default : bool)
   (resolve : sysid -> option resource) (x : doc) : list sysid * entry_result :=
-  entry_wrap e (read fuel (entry_config e lib_default) resolve x).
+  entry_wrap e (read fuel (entry_config e lib_default x) resolve x).
 
 (* ------------------------------------------------------------------ *)
 (* what the harness evaluates                                          *)
@@ -653,7 +664,7 @@ Definition same_set (a b : list N) : bool := subset a b && subset b a.
 
 (* the funnel: the parser instance suds used carries the flags the model says *)
 Definition c20_flags_agree (c : case) : bool :=
-  Bool.eqb (c_live_ges c) (ges (entry_config (c_entry c) (c_lib_default c))).
+  Bool.eqb (c_live_ges c) (ges (entry_config (c_entry c) (c_lib_default c) (c_doc c))).
 
 (* model run with the flags read from the live parser and the planted world:
    same tree / same outcome, same set of outside accesses *)
